@@ -516,14 +516,17 @@ static void run_cmd(int ntok, char **tok) {
             char *body = malloc(cap); size_t bl = 0; long payload_seen = 0;
             if(corrupt == -2) { long tot_ = 0; for(zckRangeItem *it = r->first; it; it = it->next) tot_ += (long)(it->end - it->start + 1); corrupt = tot_ - 1; }
             size_t first_end = 0, last_start = 0, last_len = 0;
+            size_t fr_s[65], fr_e[65]; int nfr = 0;      /* where the multipart framing (delimiter lines + part headers) lies in the body */
             char hdr[1024];
             int multi = nr > 1 || forcemulti;
             for(zckRangeItem *it = r->first; it; it = it->next) {
                 size_t len = it->end - it->start + 1;
                 if(multi) {
+                    if(nfr < 64) fr_s[nfr] = bl;
                     bl += snprintf(body + bl, cap - bl, "%s--%s\r\n%s%s: bytes %llu-%llu/%lld\r\n\r\n", (it == r->first && !leadcrlf) ? "" : "\r\n", boundary,
                                    extra ? "Content-Type: application/octet-stream\r\nX-Extra: 1\r\n" : "Content-Type: application/octet-stream\r\n",
                                    lower ? "content-range" : "Content-Range", (unsigned long long)it->start, (unsigned long long)it->end, (long long)st.st_size);
+                    if(nfr < 64) fr_e[nfr++] = bl;
                 }
                 ssize_t got = pread(bfd, body + bl, len, it->start);
                 if(got < (ssize_t)len) memset(body + bl + (got < 0 ? 0 : got), 0, len - (got < 0 ? 0 : got));
@@ -533,7 +536,7 @@ static void run_cmd(int ntok, char **tok) {
                 if(it == r->first) first_end = bl;
                 if(partend && strlen(cutsbuf) < sizeof cutsbuf - 32) { char t_[32]; snprintf(t_, sizeof t_, "%s%zu", cutsbuf[0] ? "," : "", bl); strcat(cutsbuf, t_); }
             }
-            if(multi) bl += snprintf(body + bl, cap - bl, "\r\n--%s--\r\n", boundary);
+            if(multi) { fr_s[nfr] = bl; bl += snprintf(body + bl, cap - bl, "\r\n--%s--\r\n", boundary); fr_e[nfr++] = bl; }
             close(bfd);
             /* header lines */
             long hret = 0; int hcalls = 0;
@@ -560,6 +563,7 @@ static void run_cmd(int ntok, char **tok) {
                 pos += n;
             }
             ev_int("ret", 1); ev_int("nranges", nr); ev_int("multi", multi); ev_int("bodylen", (long long)bl); ev_int("hdrok", hret == hcalls);
+            ev_raw(",\"framing\":["); for(int q = 0; q < nfr; q++) { char t_[64]; snprintf(t_, sizeof t_, "%s[%zu,%zu]", q ? "," : "", fr_s[q], fr_e[q]); ev_raw(t_); } ev_raw("]");
             ev_int("calls", calls); ev_int("okcalls", okcalls); ev_int("firstfail", firstfail); ev_int("failpos", (long long)failpos); ev_int("delivered", (long long)pos);
             ev_int("err", zck_is_error(z)); ev_valid(z);
             ev_int("missing", zck_missing_chunks(z)); ev_int("failed", zck_failed_chunks(z)); ev_int("firederr", shim_fired_err - fe0);
@@ -595,6 +599,9 @@ static void run_cmd(int ntok, char **tok) {
     }
     else if(!strcmp(op, "shim_kill")) { int fs = (int)AI(1); shim_set_kill(fs < 0 ? fs : fds[fs & (NSLOT-1)], (int)AI(2), (long long)AI(3)); }
     else if(!strcmp(op, "shim_clear")) { shim_clear(); }
+    /* alloc_arm <nth> [len]: from now on count the allocations made by zchunk's own code; numbers nth..nth+len-1 fail (nth 0: count only) */
+    else if(!strcmp(op, "alloc_arm")) { shim_alloc_arm((int)AI(1), ntok > 2 ? (int)AI(2) : 1); }
+    else if(!strcmp(op, "alloc_stats")) { ev_begin("alloc_stats"); ev_int("count", shim_alloc_count); ev_int("fired", shim_alloc_fired); ev_end(); }
     else if(!strcmp(op, "shim_stats")) {
         ev_begin("shim_stats");
         ev_raw(",\"fdstats\":[");
@@ -666,6 +673,7 @@ static void run_cmd(int ntok, char **tok) {
          * checksum type and the (mutated file's own) stored header checksum pinned, then read_lead+read_header. */
         size_t n; char *d = get_data(A(1), &n); long from = (long)AI(2), to = (long)AI(3);
         int pin = !strcmp(A(4), "pin"); int pht = (int)AI(5); long dloc = (long)AI(6), dsz = (long)AI(7);
+        int preopt = !strcmp(A(4), "preopt"); int po_opt = (int)AI(5); long po_val = (long)AI(6);   /* an integer option set on the fresh context first (its result ignored, the error cleared) */
         int relead = !strcmp(A(4), "relead");   /* the context has read the lead of the ORIGINAL bytes before they change (state carried between calls) */
         if(to > (long)n) to = (long)n;
         int mfd = memfd_create("hdrscan", 0);
@@ -688,6 +696,7 @@ static void run_cmd(int ntok, char **tok) {
                 if(pwrite(mfd, &b, 1, p) != 1) { zck_free(&z); continue; }
                 __real_lseek(mfd, 0, SEEK_SET);
                 if(relead) ok = zck_read_lead(z) && zck_read_header(z);
+                else if(preopt) { if(!zck_set_ioption(z, (zck_ioption)po_opt, po_val)) zck_clear_error(z); ok = zck_init_read(z, mfd); }
                 else if(!pin) ok = zck_init_read(z, mfd);
                 else {
                     char hex[200]; unsigned char cur[64];
@@ -757,7 +766,7 @@ static void run_lines(FILE *f) {
 
 int main(int argc, char **argv) {
     for(int i = 0; i < NSLOT; i++) { fds[i] = -1; sinks[i] = -1; }
-    zck_set_log_level(ZCK_LOG_NONE);
+    /* the library keeps its built-in logging defaults (level, descriptor) unless a script says `loglevel` */
     shim_disabled = getenv("ZV_SHIM_OFF") != NULL;
     signal(SIGPIPE, SIG_IGN);
     struct sigaction sa = {0}; sa.sa_handler = segv_handler; sigemptyset(&sa.sa_mask); sa.sa_flags = SA_NODEFER;
